@@ -348,25 +348,25 @@ def find_reasonable_step_size(
     direction_threshold = math.log(0.8)
     # the trial trajectories must not move the chain
     saved_tensors = [parameter.tensor.clone() for parameter in parameters]
-    r = hamiltonian.sample_momentum(mass_matrix)
-    ham = hamiltonian(momentum=r, inverse_mass_matrix=inverse_mass_matrix)
 
-    r = integrator(hamiltonian.joint, parameters, r, inverse_mass_matrix)
+    def energy_change():
+        r = hamiltonian.sample_momentum(mass_matrix)
+        ham = hamiltonian(momentum=r, inverse_mass_matrix=inverse_mass_matrix)
+        try:
+            r = integrator(hamiltonian.joint, parameters, r, inverse_mass_matrix)
+            new_ham = hamiltonian(momentum=r, inverse_mass_matrix=inverse_mass_matrix)
+        except ValueError:
+            # a trajectory that runs into a NaN energy or gradient counts as rejected
+            for parameter, saved_tensor in zip(parameters, saved_tensors):
+                parameter.tensor = saved_tensor
+            return torch.tensor(-math.inf)
+        return ham - new_ham
 
-    new_ham = hamiltonian(momentum=r, inverse_mass_matrix=inverse_mass_matrix)
-
-    delta_hamiltonian = ham - new_ham
+    delta_hamiltonian = energy_change()
     direction = 1 if direction_threshold < delta_hamiltonian else -1
 
     while True:
-        r = hamiltonian.sample_momentum(mass_matrix)
-        ham = hamiltonian(momentum=r, inverse_mass_matrix=inverse_mass_matrix)
-
-        r = integrator(hamiltonian.joint, parameters, r, inverse_mass_matrix)
-
-        new_ham = hamiltonian(momentum=r, inverse_mass_matrix=inverse_mass_matrix)
-
-        delta_hamiltonian = ham - new_ham
+        delta_hamiltonian = energy_change()
 
         if (direction == 1 and delta_hamiltonian <= direction_threshold) or (
             direction == -1 and delta_hamiltonian >= direction_threshold
